@@ -109,6 +109,10 @@ def structures(tier, seed):
         out.append({"part": "metrics", "sid": f"metrics;axes={atag}", "names": list(names)})
         out.append({"part": "ufunc", "sid": f"ufunc;dummies={atag}", "names": list(names)})
         out.append({"part": "pad", "sid": f"pad-swap-link;axes={atag}", "names": list(names)})
+    for k, (reg, arr) in enumerate([({("X", "Y"): ["a_cc"], ("Y", "Z"): ["yz_cc"], ("X",): ["dx_c"], ("Z",): ["dz_c"], ("Y",): ["dy_c"]}, "ccc"),
+                                   ({("X", "Y"): ["a_lc"], ("Y", "Z"): ["yz_cc"], ("X",): ["dx_l"], ("Z",): ["dz_c"]}, "lcc"),
+                                   ({("X",): ["dx_c"], ("Y",): ["dy_c"], ("Z",): ["dz_c"], ("Y", "Z"): ["yz_cc"]}, "ccc")]):
+        out.append({"part": "metric-choice", "sid": f"metric-choice;{k}", "reg": reg, "array": arr})
     for k, (entry, rules) in enumerate([({"X1": ["same", False]}, {"X": "extend", "Y": "fill"}), ({"X1": ["swap", False], "Y0": ["swap", False]}, {"X": "extend", "Y": "extend"}),
                                         ({"X0": ["same", True], "Y1": ["same", False]}, {"X": "fill", "Y": "periodic"})]):
         out.append({"part": "pad-corners", "sid": f"pad-corners;{k}", "entry": entry, "rules": rules})
@@ -258,6 +262,69 @@ def run_metrics(s):
             rec["canary"] = True
         obs.append(rec)
     return {"sid": s["sid"], "obligations": obs, "paths": rep.paths, "queries": rep.queries, "solver_time": rep.solver_time, "engine_errors": rep.engine_errors, "covers": covers}
+
+
+def run_metric_choice(s):
+    """relational: which registered metrics get_metric multiplies for three axes (several admissible partitions) - and hence the
+    numbers of integrate / average - is the same under every renaming of the axes, in particular under renamings whose
+    alphabetical order differs from the order in which the axes are passed"""
+    from harness import C10
+    from harness.C10 import DemonicFrozenSet
+    from vp.util import DemonicSet
+    from vp.gridlib import make_layout as mk
+    mods = util.xgcm_modules()
+    covers = {}
+    namings = [("X", "Y", "Z"), ("lon", "lat", "depth"), ("c", "b", "a"), ("zeta", "eta", "xi"), ("b", "a", "c"), ("Xx", "X", "x")]
+    records = []
+    rep_all = None
+    reg = s["reg"]
+    for nm in namings:
+        ren = dict(zip(("X", "Y", "Z"), nm))
+
+        def body():
+            w = SymWorld()
+            layout = mk(C10.LAY)
+            ns = {a: w.size(f"n_{a}", 2) for a in C10.LAY}
+            dims = {}
+            for a in C10.LAY:
+                for pos, d in layout[a].items():
+                    dims[d] = symx.mk_int(spec.len_pos(pos, zint(ns[a])))
+            dims["t"] = w.size("n_t", 1)
+            ds = w.dataset(dims, coords={d: (d,) for d in dims}, data_vars={k: v[1] for k, v in C10.POOL.items()})
+            lay2 = {ren[a]: layout[a] for a in C10.LAY}
+            metrics = {tuple(ren[c] for c in k): list(v) for k, v in reg.items()}
+            g = w.grid(ds, lay2, periodic=False, metrics=metrics)
+            arr = w.array("A", list(C10.ARRAYS[s["array"]]), ds)
+            out = {"order": nm, "flags": {}, "terms": {}}
+            for tag, req in (("XYZ", ["X", "Y", "Z"]), ("ZXY", ["Z", "X", "Y"]), ("YZX", ["Y", "Z", "X"])):
+                r, err = guarded(lambda: g.get_metric(arr, [ren[a] for a in req]))
+                out["flags"][f"exit:{tag}"] = "return" if err is None else err.split(":")[0]
+                if err is None:
+                    out["flags"][f"dims:{tag}"] = tuple(sorted(r.dims))
+                    q = {d: z3.Int(f"q_{d}") for d in r.dims}
+                    out["terms"][f"metric:{tag}"] = r.elem(q)
+            covers["ran"] = covers.get("ran", 0) + 1
+            return out
+        with util.patched(*util.std_patches(mods), (mods["metrics"], "frozenset", DemonicFrozenSet), (mods["grid"], "frozenset", DemonicFrozenSet), (mods["grid"], "set", DemonicSet)):
+            rep, recs = symx.explore_records(body, s["sid"])
+        records += recs
+        if rep_all is None:
+            rep_all = rep
+        else:
+            rep_all.paths += rep.paths
+            rep_all.queries += rep.queries
+            rep_all.solver_time += rep.solver_time
+            rep_all.engine_errors += rep.engine_errors
+    diffs, n = symx.compare_records(records)
+    failed = [d for d in diffs if d[0] == "failed"]
+    unknown = [d for d in diffs if d[0] == "unknown"]
+    st = "failed" if failed else ("unknown" if unknown else "proved")
+    rec = {"fn": "grid.Grid.get_metric", "clause": "metric-chosen-for-three-axes-independent-of-the-axis-names", "status": st, "time": 0,
+           "detail": f"{n} jointly feasible pairs compared" if st == "proved" else f"{(failed or unknown)[0][1]} differs between namings {(failed or unknown)[0][2]['order']} and {(failed or unknown)[0][3]['order']}"}
+    if failed:
+        rec["witness"] = {"part": "metric-choice", "namings": [list(failed[0][2]["order"]), list(failed[0][3]["order"])], "reg": {"".join(k): v for k, v in reg.items()}, "array": s["array"]}
+    return {"sid": s["sid"], "obligations": [rec], "paths": rep_all.paths, "queries": rep_all.queries, "solver_time": rep_all.solver_time, "engine_errors": rep_all.engine_errors, "covers": covers,
+            "counts": {"naming_pairs_compared": n}}
 
 
 def run_ufunc(s):
@@ -556,7 +623,7 @@ def run_tempname(s):
 
 
 def run_structure(s):
-    return {"ops": run_ops, "metrics": run_metrics, "ufunc": run_ufunc, "pad": run_pad, "pad-corners": run_pad_corners, "transform": run_transform, "sgrid": run_parse, "comodo": run_parse,
+    return {"ops": run_ops, "metrics": run_metrics, "ufunc": run_ufunc, "pad": run_pad, "pad-corners": run_pad_corners, "metric-choice": run_metric_choice, "transform": run_transform, "sgrid": run_parse, "comodo": run_parse,
             "tempname": run_tempname}[s["part"]](s)
 
 
@@ -644,6 +711,8 @@ def replay(ob):
                     return {"confirmed": True, "text": f"grid.transform on data with an extra dimension called 'temp_unique' raised {type(e).__name__}: {e}"}
         if part == "pad-corners":
             return replay_corners(wit)
+        if part == "metric-choice":
+            return replay_metric_choice(wit)
         if part == "pad":
             return {"confirmed": False, "text": f"padding across an axis-swapping link with axes named {wit['names'][:2]}: {wit.get('detail')} (symbolic run of the real code)"}
     except Exception as e:  # noqa
@@ -678,3 +747,30 @@ def replay_corners(wit):
         outs.append(out.transpose("tile", dn["y"], dn["x"]).values)
     same = outs[0].shape == outs[1].shape and np.allclose(outs[0], outs[1])
     return {"confirmed": not same, "text": f"two-face grid, widths X (1,2), Y (2,1): padded arrays under axis names {wit['namings'][0]} and {wit['namings'][1]} " + ("are identical" if same else f"differ in {int((~np.isclose(outs[0], outs[1])).sum())} cells (corners)")}
+
+
+def replay_metric_choice(wit):
+    """real code: the same grid / metrics / data under two namings of the axes"""
+    import numpy as np
+    import xarray as xr
+    import xgcm
+    from harness import C10
+    rng = np.random.default_rng(3)
+    n = 3
+    sizes = {"x_c": n, "x_l": n, "y_c": n, "y_l": n, "z_c": n, "z_o": n + 1, "t": 2}
+    base = xr.Dataset(coords={d: np.arange(k) for d, k in sizes.items()})
+    for name, (_, vd) in C10.POOL.items():
+        base[name] = (vd, rng.random([sizes[d] for d in vd]) + 0.5)
+    adims = C10.ARRAYS[wit["array"]]
+    da = xr.DataArray(rng.random([sizes[d] for d in adims]), dims=adims)
+    outs = []
+    for nm in wit["namings"]:
+        ren = dict(zip(("X", "Y", "Z"), nm))
+        coords = {ren["X"]: {"center": "x_c", "left": "x_l"}, ren["Y"]: {"center": "y_c", "left": "y_l"}, ren["Z"]: {"center": "z_c", "outer": "z_o"}}
+        metrics = {tuple(ren[c] for c in k): list(v) for k, v in wit["reg"].items()}
+        import warnings
+        warnings.simplefilter("ignore")
+        g = xgcm.Grid(base, coords=coords, periodic=False, metrics=metrics, autoparse_metadata=False)
+        outs.append([g.integrate(da, [ren[a] for a in req]).values for req in (["X", "Y", "Z"], ["Z", "X", "Y"], ["Y", "Z", "X"])])
+    same = all(np.allclose(a, b) for a, b in zip(outs[0], outs[1]))
+    return {"confirmed": not same, "text": f"integrate over three axes with metrics {wit['reg']} under axis names {wit['namings'][0]} and {wit['namings'][1]}: " + ("same numbers" if same else "DIFFERENT numbers")}
